@@ -1,8 +1,245 @@
 import BddVerif.Drive.Util
-/-! Driver for C08 — stub, to be written. -/
-namespace B.Drive.C08
-open B B.Drive
+import BddVerif.Model.Iter
+/-!
+Driver for C08: replays each observed enumeration through the model (`Model/Iter.lean`) and evaluates
+the property's own predicate on the implementation's output, independently of the model:
 
-def handle (key : String) (_ins _obs : List String) : Verdict := Verdict.bad ("key " ++ key)
+* valuations: every item has `num_vars` bits, no item twice, every item satisfies the diagram
+  (`evalArr`), the number of items is the number of satisfying rows of the truth table (n ≤ 12) or
+  the recursive model count (larger n);
+* clauses: every valuation is matched by exactly one clause if it satisfies the diagram and by none
+  otherwise (n ≤ 12: row by row; larger n: pairwise syntactic disjointness, each clause implies the
+  diagram, the clause sizes add up to the model count); `sat_clauses` and `to_dnf` list the same set;
+* clause valuations: exactly 2^k items, each extends the clause, strictly increasing (variable 0 least
+  significant);
+* owned iterators: same sequences, `Bdd::from(iterator)` is the input diagram, also after k items.
+-/
+namespace B.Drive.C08
+open B B.Drive B.Iter Std
+
+def bigFuel : Nat := 1000000000
+def maxTT : Nat := 12
+
+/-! ### text forms -/
+
+/-- `count:item,item,…` -/
+def showSeq (items : List String) : String := s!"{items.length}:" ++ ",".intercalate items
+
+def parseSeq? (s : String) : Option (List String) :=
+  match s.splitOn ":" with
+  | [c, body] =>
+    let items := if body == "" then [] else body.splitOn ","
+    if c.toNat? == some items.length then some items else none
+  | _ => none
+
+/-- mirror of the harness's `fmt_partial` -/
+def showPartial (n : Nat) (c : PV) : String :=
+  let head := String.ofList ((List.range n).map fun i =>
+    match pvGet c i with | some true => '1' | some false => '0' | none => '-')
+  let head := if head.isEmpty then "~" else head
+  let extra := (toValues c).filter (·.1 ≥ n) |>.map fun (i, b) => s!";{i}={if b then 1 else 0}"
+  head ++ String.join extra
+
+def parsePartial (s : String) : PV :=
+  if s == "~" then [] else s.toList.map fun ch => if ch == '1' then some true else if ch == '0' then some false else none
+
+def showVals : Outcome (List Valn) → String
+  | .ok l => showSeq (l.map showBits)
+  | .err _ => "err"
+  | .panic _ => "panic"
+
+def showClauses (n : Nat) : Outcome (List PV) → String
+  | .ok l => showSeq (l.map (showPartial n))
+  | .err _ => "err"
+  | .panic _ => "panic"
+
+/-! ### oracles that do not use the enumeration model -/
+
+/-- number of satisfying assignments of the variables `≥ var p`, by the counting recursion -/
+def cntFrom (A : Arr) (n : Nat) : Nat → Nat → Nat
+  | _, 0 => 0
+  | _, 1 => 1
+  | 0, _ => 0
+  | f + 1, p =>
+    let nd := nodeAt A p
+    let lv := if nd.low < 2 then n else (nodeAt A nd.low).var
+    let hv := if nd.high < 2 then n else (nodeAt A nd.high).var
+    cntFrom A n f nd.low * 2 ^ (lv - nd.var - 1) + cntFrom A n f nd.high * 2 ^ (hv - nd.var - 1)
+
+def cardOf (A : Arr) : Nat :=
+  let n := numVars A
+  let r := root A
+  let rv := if r < 2 then n else (nodeAt A r).var
+  cntFrom A n (n + 2) r * 2 ^ rv
+
+/-- number of satisfying valuations: truth table for n ≤ 12, counting recursion above -/
+def satCount (A : Arr) : Nat :=
+  let n := numVars A
+  if n ≤ maxTT then ((ttOf A n).toList.filter id).length else cardOf A
+
+/-- every total valuation extending the clause satisfies the diagram (below pointer `p`) -/
+def impliesB (A : Arr) (c : List Char) : Nat → Nat → Bool
+  | _, 0 => false
+  | _, 1 => true
+  | 0, _ => false
+  | f + 1, p =>
+    let nd := nodeAt A p
+    match c.getD nd.var '-' with
+    | '0' => impliesB A c f nd.low
+    | '1' => impliesB A c f nd.high
+    | _ => impliesB A c f nd.low && impliesB A c f nd.high
+
+def clauseMatches (c : List Char) (v : Nat → Bool) : Bool :=
+  (c.zipIdx).all fun (ch, i) => ch == '-' || (ch == '1') == v i
+
+def clausesDisjoint (c d : List Char) : Bool :=
+  (c.zip d).any fun (x, y) => (x == '0' && y == '1') || (x == '1' && y == '0')
+
+def firstFail (xs : List (Option String)) : Option String := xs.findSome? id
+
+def hasDup (xs : List String) : Bool :=
+  (xs.foldl (fun (acc : HashSet String × Bool) x => (acc.1.insert x, acc.2 || acc.1.contains x)) ({}, false)).2
+
+/-- predicate on an observed sequence of valuations -/
+def checkVals (A : Arr) (items : List String) : Option String :=
+  let n := numVars A
+  firstFail [
+    if items.all (fun s => (parseBits s).length == n && (s == "~" || s.toList.all fun c => c == '0' || c == '1')) then none else some "valuation-length",
+    if hasDup items then some "valuation-twice" else none,
+    if items.all (fun s => evalArr A (valOfBits (parseBits s))) then none else some "valuation-not-satisfying",
+    if items.length == satCount A then none else some "valuation-count"]
+
+/-- predicate on an observed sequence of clauses -/
+def checkClauses (A : Arr) (items : List String) : Option String :=
+  let n := numVars A
+  let cs := items.map fun s => if s == "~" then [] else s.toList
+  firstFail [
+    if cs.all (fun c => c.length == n && c.all fun ch => ch == '0' || ch == '1' || ch == '-') then none else some "clause-shape",
+    if n ≤ maxTT then
+      let tt := ttOf A n
+      (List.range (2 ^ n)).findSome? fun i =>
+        let v := valOfIndex n i
+        let k := (cs.filter (clauseMatches · v)).length
+        if tt[i]! then (if k == 1 then none else if k == 0 then some "clauses-do-not-cover" else some "clauses-overlap")
+        else if k == 0 then none else some "clause-outside-the-function"
+    else
+      firstFail [
+        if cs.all (fun c => impliesB A c (n + 2) (root A)) then none else some "clause-outside-the-function",
+        if (List.range cs.length).all (fun i => (List.range i).all fun j => clausesDisjoint (cs.getD i []) (cs.getD j [])) then none else some "clauses-overlap",
+        if (cs.map fun c => 2 ^ (c.filter (· == '-')).length).sum == cardOf A then none else some "clauses-do-not-cover"]]
+
+def sameSet (xs ys : List String) : Bool :=
+  let a : HashSet String := HashSet.ofList xs
+  let b : HashSet String := HashSet.ofList ys
+  xs.all b.contains && ys.all a.contains
+
+def leNumS (s : String) : Nat := leNum (parseBits s)
+
+/-- predicate on the observed valuations of a clause over `n` variables (clause inside the range) -/
+def checkClauseVals (clause : List Char) (n : Nat) (items : List String) : Option String :=
+  let k := ((List.range n).filter fun i => clause.getD i '-' == '-').length
+  firstFail [
+    if items.length == 2 ^ k then none else some "clause-valuations-count",
+    if items.all (fun s => (parseBits s).length == n && clauseMatches clause (valOfBits (parseBits s))) then none else some "clause-valuation-does-not-extend",
+    let nums := items.map leNumS
+    if (nums.zip (nums.drop 1)).all (fun (a, b) => a < b) then none else some "clause-valuations-not-increasing"]
+
+def sizeTag (A : Arr) : List String :=
+  [s!"n{numVars A}", if A.size ≤ 2 then "const" else s!"sz{Nat.log2 (A.size + 1)}"] ++
+  (if isCanon A then [] else ["noncanon"]) ++
+  (if numVars A ≥ 10 then ["gap"] else [])
+
+/-- a panic is a failure of the property only on reduced diagrams (the path iterator refuses
+    diagrams with a redundant test by design) -/
+def panicFail (A : Arr) (what : String) : Option String :=
+  if isReduced A then some ("outcome:" ++ what) else none
+
+def handle (key : String) (ins obs : List String) : Verdict :=
+  match key, ins, obs with
+  | "C08.vals", [b], [res] =>
+    match parseArr? b with
+    | some A =>
+      let model := showVals (satList A bigFuel)
+      let fail := match parseSeq? res with
+        | some items => checkVals A items
+        | none => panicFail A res
+      { agree := model == res, model, fail, nontrivial := A.size > 2, tags := "vals" :: sizeTag A }
+    | none => Verdict.bad "args"
+  | "C08.clauses", [b], [it, dnf] =>
+    match parseArr? b with
+    | some A =>
+      let n := numVars A
+      let model := showClauses n (pathList A bigFuel) ++ " " ++ showClauses n (toDnf A bigFuel)
+      let fail := match parseSeq? it, parseSeq? dnf with
+        | some xs, some ys => firstFail [checkClauses A xs, checkClauses A ys,
+            if hasDup xs || hasDup ys then some "clause-twice" else none,
+            if sameSet xs ys then none else some "sat_clauses-vs-to_dnf"]
+        | none, some ys => firstFail [panicFail A it, checkClauses A ys]
+        | _, none => some ("outcome:" ++ dnf)
+      { agree := model == it ++ " " ++ dnf, model, fail, nontrivial := A.size > 2, tags := "clauses" :: sizeTag A }
+    | none => Verdict.bad "args"
+  | "C08.owned", [b, k], [vals, cls, backV, backC, takenV, takenC] =>
+    match parseArr? b, k.toNat? with
+    | some A, some k =>
+      let n := numVars A
+      let mVals := match ownedSatInit A with
+        | .ok st => collect ownedSatNext bigFuel st | .err m => .err m | .panic m => .panic m
+      let mCls := match ownedPathInit A with
+        | .ok st => collect ownedPathNext bigFuel st | .err m => .err m | .panic m => .panic m
+      let (mBackV, mTakenV) := match ownedSatInit A with
+        | .ok st => (match takeK ownedSatNext k st with
+            | .ok (l, st') => (showArr st'.intoBdd, showVals (.ok l))
+            | _ => ("panic", "panic"))
+        | _ => ("panic", "panic")
+      let (mBackC, mTakenC) := match ownedPathInit A with
+        | .ok st => (match takeK ownedPathNext k st with
+            | .ok (l, st') => (showArr st'.intoBdd, showClauses n (.ok l))
+            | _ => ("panic", "panic"))
+        | _ => ("panic", "panic")
+      let model := " ".intercalate [showVals mVals, showClauses n mCls, mBackV, mBackC, mTakenV, mTakenC]
+      let isPrefix (t all : String) : Bool := match parseSeq? t, parseSeq? all with
+        | some t, some all => t == all.take (min k all.length)
+        | some _, none => true   -- the full run panicked (non-reduced input): nothing to compare with
+        | none, _ => false
+      let fail := firstFail [
+        match parseSeq? vals with | some xs => checkVals A xs | none => panicFail A vals,
+        match parseSeq? cls with | some xs => checkClauses A xs | none => panicFail A cls,
+        if backV == "panic" then panicFail A "panic" else if backV == b then none else some "owned-valuations-give-back-another-bdd",
+        if backC == "panic" then panicFail A "panic" else if backC == b then none else some "owned-clauses-give-back-another-bdd",
+        if takenV == "panic" || isPrefix takenV vals then none else some "owned-prefix",
+        if takenC == "panic" || isPrefix takenC cls then none else some "owned-prefix"]
+      { agree := model == " ".intercalate obs, model, fail, nontrivial := A.size > 2,
+        tags := "owned" :: (if k == 0 then "k0" else if k ≥ 100000 then "kall" else "kmid") :: sizeTag A }
+    | _, _ => Verdict.bad "args"
+  | "C08.cvals", [clause, n], [res] =>
+    match n.toNat? with
+    | some n =>
+      let c := parsePartial clause
+      let model := match cvNew c n with
+        | .ok st => showVals (collect cvNext bigFuel st)
+        | _ => "panic"
+      let chars := if clause == "~" then [] else clause.toList
+      let inside := (chars.drop n).all (· == '-')
+      let fail := if !inside then none else
+        match parseSeq? res with
+        | some items => checkClauseVals chars n items
+        | none => some ("outcome:" ++ res)
+      let free := ((List.range n).filter fun i => chars.getD i '-' == '-').length
+      { agree := model == res, model, fail, nontrivial := inside && free ≥ 1 && free < n,
+        tags := ["cvals", s!"n{n}", if inside then "inside" else "beyond", s!"free{free}"] }
+    | none => Verdict.bad "args"
+  | "C08.uvals", [n], [u, d, e] =>
+    match n.toNat? with
+    | some n =>
+      let mu := showVals (collect cvNext bigFuel (cvUnconstrained n))
+      let me := showVals (collect cvNext bigFuel cvEmpty)
+      let model := " ".intercalate [mu, mu, me]
+      let fail := firstFail [
+        match parseSeq? u with | some items => checkClauseVals [] n items | none => some ("outcome:" ++ u),
+        match parseSeq? d with | some items => checkClauseVals [] n items | none => some ("outcome:" ++ d),
+        if e == "0:" then none else some "empty-iterator-yields"]
+      { agree := model == " ".intercalate obs, model, fail, nontrivial := n > 0, tags := ["uvals", s!"n{n}"] }
+    | none => Verdict.bad "args"
+  | _, _, _ => Verdict.bad ("key " ++ key)
 
 end B.Drive.C08
